@@ -268,3 +268,12 @@ PROPS["C08"]["rule"] += " ; plus the mutate engine (objects mutated in place bet
 
 PROPS["C18"]["engines"].append(("multifile", {"quick": 40, "thorough": 800}))
 PROPS["C18"]["rule"] += " ; plus real sessions over 2-3 test files, a quarter of them started from a directory that does not contain the test files (harness/engines/multifile.py)"
+
+ABORT_RULE = ("seeded generator (harness/engines/abort.py): one test with 2-4 plain assert statements over independent call sites (== <= >= in, stored value right / wrong / slack / "
+              "missing / non-canonical) and optionally a module-level snapshot (list with in, dict with [key], bound) used before and after other statements; 2-4 categories approved "
+              "together and one at a time in every order")
+for _p in ("C09", "C02"):
+    PROPS[_p]["engines"].append(("abort", {"quick": 250, "thorough": 6000}))
+    PROPS[_p]["rule"] += " ; plus " + ABORT_RULE
+ENGINES["abort"] = ("tests with plain asserts (a failing comparison ends the test): every order of approving categories vs together, disabled re-run; direct oracles only "
+                    "(the site model has no notion of a test that ends early)")
